@@ -20,7 +20,6 @@ use foyer::{
     HybridCacheProperties, IoEngine, IoEngineConfig, IoHandle, LfuConfig, Load, Location, LruConfig, PsyncIoEngineConfig,
     RecoverMode, S3FifoConfig, SieveConfig, StorageFilter,
 };
-use foyer_common::hasher::ModHasher;
 use foyer::{StorageFilterCondition, StorageFilterResult, Statistics};
 
 #[derive(Debug)]
@@ -106,7 +105,37 @@ impl IoEngineConfig for LogIoEngineConfig {
     }
 }
 
-type H = HybridCache<u64, Vec<u8>, ModHasher>;
+/// `hashmod=m` (cfg line): every key hashes to `key % m`, so distinct keys collide on the full 64-bit hash; 0 = identity.
+static HASH_MOD: std::sync::atomic::AtomicU64 = std::sync::atomic::AtomicU64::new(0);
+
+#[derive(Debug, Default, Clone)]
+struct SimHasher {
+    state: u64,
+}
+impl std::hash::Hasher for SimHasher {
+    fn finish(&self) -> u64 {
+        match HASH_MOD.load(std::sync::atomic::Ordering::Relaxed) {
+            0 => self.state,
+            m => self.state % m,
+        }
+    }
+    fn write(&mut self, bytes: &[u8]) {
+        for byte in bytes {
+            self.state = (self.state << 8) + *byte as u64;
+        }
+    }
+    fn write_u64(&mut self, i: u64) {
+        self.state = i;
+    }
+}
+impl std::hash::BuildHasher for SimHasher {
+    type Hasher = SimHasher;
+    fn build_hasher(&self) -> SimHasher {
+        SimHasher::default()
+    }
+}
+
+type H = HybridCache<u64, Vec<u8>, SimHasher>;
 
 fn kvs(line: &str) -> BTreeMap<String, String> {
     line.split_whitespace()
@@ -147,6 +176,7 @@ struct Cfg {
 
 async fn open(dir: &Path, cfg: &Cfg, sh: Arc<Shared>, switch: Switch) -> foyer::Result<H> {
     let kv = &cfg.kv;
+    HASH_MOD.store(geti_d(kv, "hashmod", 0), std::sync::atomic::Ordering::Relaxed);
     let block = geti_d(kv, "block", 65536) as usize;
     let blocks = geti_d(kv, "blocks", 8) as usize;
     let tomb = geti_d(kv, "tomb", 0) == 1;
@@ -195,7 +225,7 @@ async fn open(dir: &Path, cfg: &Cfg, sh: Arc<Shared>, switch: Switch) -> foyer::
         .with_flush_on_close(geti_d(kv, "foc", 1) == 1)
         .memory(geti_d(kv, "mem", 4) as usize)
         .with_shards(1)
-        .with_hash_builder(ModHasher::default());
+        .with_hash_builder(SimHasher::default());
     let b = match gets_d(kv, "algo", "fifo") {
         "lru" => b.with_eviction_config(LruConfig::default()),
         "lfu" => b.with_eviction_config(LfuConfig::default()),
